@@ -1,4 +1,4 @@
-\* generated by the builder of C02/C08; see MCSearchers.tla for the families
+\* generated with the builder script of C02/C08; families: MCSearchers.tla
 SPECIFICATION Spec
 CONSTANTS
   SegSizes <- Segs21
@@ -7,8 +7,10 @@ CONSTANTS
   ScoreNone = TRUE
   HeapTakeover = 10
   MaxCalls = 0
-  NTerms = 3
-  Queries <- QK1
+  NTerms = 2
+  Family = "k1"
+  DropK1 = FALSE
+  Queries <- MCQueries
   FirstAdvanceOK <- FirstAdvNoQ2
 VIEW View
 INVARIANT EnumIsHits
